@@ -60,11 +60,72 @@ def overlap_case(rng):
             rules.reverse()
         text = "#ruledef\n{\n    %s\n}\n%s %s%d\n" % ("\n    ".join(rules), m, "R" if rng.chance(0.3) else "r", n)
         return text, "".join("1" if (lit >> (7 - i)) & 1 else "0" for i in range(8))
+    if rng.chance(0.3):
+        # several operands typed by ONE sub-rule set that offers register names next to an expression alternative, and
+        # a constant named like a register: the literal alternative wins in EVERY operand position
+        regs = rng.shuffle(["a", "b", "hl", "sp"])[:rng.range(2, 3)]
+        codes = {r: rng.below(16) for r in regs}
+        alts = ["%s => 0x0 @ 0x%x`4" % (r, codes[r]) for r in regs] + ["{v: u4} => 0x1 @ v"]
+        if order:
+            alts.reverse()
+        nops = rng.range(2, 3)
+        pn = ["d", "s", "t"][:nops]
+        clash = rng.choice(regs)
+        ops = [rng.choice([clash, clash, rng.choice(regs), str(rng.below(16))]) for _ in range(nops)]
+        if clash not in ops[:-1]:
+            ops[0] = clash
+        bits = "".join(format(lit >> (7 - i) & 1, "d") for i in range(8))
+        for o in ops:
+            bits += ("0000" + format(codes[o], "04b")) if o in codes else ("0001" + format(int(o), "04b"))
+        text = "#subruledef operand\n{\n    %s\n}\n#ruledef\n{\n    %s %s => 0x%02x @ %s\n}\n%s = %d\n%s %s\n" % (
+            "\n    ".join(alts), m, ", ".join("{%s: operand}" % q for q in pn), lit, " @ ".join(pn), clash, rng.below(16),
+            m, ", ".join(o.upper() if (o in codes and rng.chance(0.2)) else o for o in ops))
+        return text, bits
     rules = ["%s %s => 0x%02x" % (m, reg, lit), "%s {x} => 0x%02x @ x`8" % (m, gen)]
     if order:
         rules.reverse()
     text = "#ruledef\n{\n    %s\n}\n%s = %d\n%s %s\n" % ("\n    ".join(rules), reg, rng.below(200), m, reg.upper() if rng.chance(0.3) else reg)
     return text, "".join("1" if (lit >> (7 - i)) & 1 else "0" for i in range(8))
+
+
+def dotted_case(rng):
+    """(plain text, spaced text) of one program whose operands are dotted paths to nested labels"""
+    import re
+    tops = rng.shuffle(["start", "table", "main", "data0"])[:rng.range(2, 3)]
+    subs = {t: rng.shuffle(["loop", "first", "second", "end"])[:rng.range(1, 3)] for t in tops}
+    isa = "#ruledef\n{\n    jmp {addr: u8} => 0x10 @ addr\n    ld {r: u4}, {addr: u8} => 0x2 @ r @ addr\n}\n"
+    lines = []
+    for t in tops:
+        lines.append(("label", t + ":"))
+        for sname in subs[t]:
+            for _ in range(rng.range(0, 2)):
+                tgt_top = rng.choice(tops)
+                path = rng.choice([tgt_top + "." + rng.choice(subs[tgt_top]), "." + rng.choice(subs[t]), tgt_top, "%s.%s + 1" % (tgt_top, rng.choice(subs[tgt_top]))])
+                lines.append(("instr", ["jmp", path]) if rng.chance(0.6) else ("instr", ["ld", str(rng.below(16)) + ",", path]))
+            lines.append(("label", "." + sname + ":"))
+            if rng.chance(0.5):
+                lines.append(("data", "#d8 0x%02x" % rng.below(256)))
+
+    def gap():
+        return rng.weighted([(" ", 30), ("  ", 15), ("\t", 15), (" ;* c *; ", 15), (";* c *;", 10), ("", 15)])
+
+    def spaced(expr):
+        toks = re.findall(r"[A-Za-z_][A-Za-z0-9_]*|\d+|\S", expr)
+        out = toks[0]
+        for a, b in zip(toks, toks[1:]):
+            g = gap()
+            if g == "" and (a[-1].isalnum() or a[-1] == "_") and (b[0].isalnum() or b[0] == "_"):
+                g = " "
+            out += g + b
+        return out
+    plain, var = [], []
+    for k, l in lines:
+        if k == "instr":
+            plain.append("    " + " ".join(l))
+            var.append("    " + l[0] + rng.choice([" ", "\t", "  ", " ;* m *; "]) + " ".join(spaced(x) if i == len(l) - 2 else x for i, x in enumerate(l[1:])) + rng.choice(["", " ; trailing", "\t"]))
+        else:
+            plain.append(l); var.append(l)
+    return isa + "\n".join(plain) + "\n", isa + "\n".join(var) + "\n"
 
 
 def run(chk):
@@ -131,6 +192,17 @@ def run(chk):
             chk.violation("a rule spelling an operand literally did not take precedence over the expression rule",
                           {"kind": "overlap", "program": t, "impl": a[:500], "expected_bits": want})
     chk.count("literal_overlap", len(oc))
+    # blanks, tabs and block comments between the tokens of an OPERAND: nested labels referred to by dotted paths
+    dc = [dotted_case(rng) for _ in range(150 if quick else 1500)]
+    da = R.impl([(t, 10, True, True) for pair in dc for t in pair])
+    for i, (b, v) in enumerate(dc):
+        cb, cv = asm_gen.canon_impl(da[2 * i]), asm_gen.canon_impl(da[2 * i + 1])
+        if cb[0] == "OK":
+            chk.nontriv(b)
+        if asm_streams.sig(cb) != asm_streams.sig(cv):
+            chk.violation("blanks / comments between the tokens of an operand (dotted label path) change how the line is assembled",
+                          {"kind": "render", "variant": "operand-space", "base_program": b, "program": v, "base": str(asm_streams.sig(cb))[:600], "impl": da[2 * i + 1][:1500]})
+    chk.count("operand_token_spacing", len(dc))
     chk.cov["traces_validated_against_impl"] = len(icases) + len(oc)
     chk.cov["disagreements_checked"] = ndis
 
